@@ -96,7 +96,7 @@ class KeyCondition(Condition):
         return (self.key,)
 
     def replace_key(self, current: cirq.MeasurementKey, replacement: cirq.MeasurementKey):
-        return KeyCondition(replacement) if self.key == current else self
+        return KeyCondition(replacement, self.index) if self.key == current else self
 
     def __str__(self):
         return str(self.key) if self.index == -1 else f'{self.key}[{self.index}]'
@@ -200,7 +200,7 @@ class BitMaskKeyCondition(Condition):
         )
 
     def replace_key(self, current: cirq.MeasurementKey, replacement: cirq.MeasurementKey):
-        return BitMaskKeyCondition(replacement) if self.key == current else self
+        return attrs.evolve(self, key=replacement) if self.key == current else self
 
     def __str__(self):
         s = str(self.key) if self.index == -1 else f'{self.key}[{self.index}]'
